@@ -11,6 +11,43 @@ COMMON_NOTE = ("Trusted: Lean kernel; axioms limited to propext/Classical.choice
                "generators (distribution in the evidence file); Go toolchain and standard library. ")
 
 TEXT = {
+    "C02": {
+        "level": "Theorems (Props/C02.lean) for all tokens, blocks and authorizer states: attenuation_monotone, attenuation_monotone_suffix, "
+                 "refusal_is_stable, failed_checks_prefix, run_error_is_stable, authorityPhase_indep_blocks, on the model of Authorize that follows the "
+                 "code's evaluation order. Tied to the code by AUTHSEQ cases on pairs (T, T+B) with adversarial B, through builders, Serialize, "
+                 "Unmarshal and AuthorizerFor; witness search evaluates the statement on the implementation.",
+        "note": COMMON_NOTE + "Modelled, not verified: interning (string-level model), wall-clock limit.",
+        "technique": "Lean 4 proof (prefix/accumulation induction over the block loop) + differential correspondence + relational witness search",
+    },
+    "C03": {
+        "level": "Theorems (Props/C03.lean): state_indep_of_blocks, query_indep_of_blocks, verdict_decomposition (verdict = authority phase + one independent "
+                 "result per block), other_blocks_unaffected, failed_ids_other_blocks, checkfree_block_is_inert, authority_visible_everywhere; value level. "
+                 "Tied by AUTHSEQ triples (replace a block's facts/rules; insert check-free probe blocks contributing exactly what other scopes ask for).",
+        "note": COMMON_NOTE + "Modelled, not verified: World.Clone's slice-header copy is treated as a value copy (benign for Authorize's access pattern; exercised differentially).",
+        "technique": "Lean 4 proof (decomposition of the verdict) + differential correspondence + relational witness search",
+    },
+    "C04": {
+        "level": "Theorems (Props/C04.lean) against a declarative specification (Spec/Decision.lean: scopes as derivability closures, checks as disjunctions, "
+                 "first matching policy): authorize_ok_iff, authorize_denied_iff, authorize_nomatch_iff, authorize_checksFailed_iff (precedence), failed_ids_exact, "
+                 "fragment_no_run_error; built on C05's least-model theorem. The model's verdict is the reference for AUTHSEQ cases run through the real API.",
+        "note": COMMON_NOTE + "Theorems hold inside the stated fragment (WithinFragment); interning modelled at string level.",
+        "technique": "Lean 4 proof of equivalence between evaluation-order model and declarative decision procedure + differential correspondence",
+    },
+    "C11": {
+        "level": "Theorems (Props/C11.lean) for clauses (a),(b),(c): run_zero_iterations, ok_is_fixpoint, ok_below_fact_limit, fact_limit_sound, run_monotone, "
+                 "iter_limit_means_growth, authorize_ok_runs_completed, authorize_fails_on_authority_limit, limits_preserved, fresh_limits, query_uses_limits. "
+                 "PARTIAL for clause (d) (no stranded goroutine): decided on the implementation by the goroutine profile after every case. Tied by an exhaustive "
+                 "limit grid on chain programs, ill-formed programs, random programs under small limits, all three authorizer constructors, and timed heavy joins.",
+        "note": COMMON_NOTE + "Partial: Go scheduler/timers/goroutine lifetime are outside the model; duration limit observed only on the implementation.",
+        "technique": "Lean 4 proof (fuel induction on the run loop) + differential correspondence + goroutine-profile observation",
+    },
+    "C13": {
+        "level": "Theorems (Props/C13.lean) over all operation histories: base_world_invariant, reset_eq_fresh, reset_forgets (every continuation after Reset behaves "
+                 "as on a fresh authorizer); pinned-behaviour witness reset_leaks_pinned (D9) and reset_clean_repaired by decide. Tied by multi-round AUTHSEQ "
+                 "histories; witness search replays each round on a fresh authorizer.",
+        "note": COMMON_NOTE + "Modelled, not verified: baseSymbols (string-level model).",
+        "technique": "Lean 4 proof (state invariant by induction over histories) + differential correspondence + relational witness search",
+    },
     "C05": {
         "level": "Theorems (Props/C05.lean) over the executable engine model, for all programs, fact lists and sizes: run_ok_closure "
                  "(an error-free run yields exactly the least model, duplicate-free), applyRule_exact/queryRule_exact (QueryRule returns "
